@@ -1,7 +1,7 @@
 """C12 - fast mode reproduces the normal simulation when fills are unambiguous."""
 
 RULE = ("Hypothesis-generated single-symbol sessions run twice, fast_mode=False and fast_mode=True (trading timeframe 1m..1h, "
-        "optional larger data-route timeframe, spot and futures cross, 300..1500 minutes). Eligibility is built in by "
+        "optional larger data-route timeframe, spot and futures cross, 300..1500 minutes, session start on or off the timeframe grid: midnight + 0/3/7/30/570/1439 minutes). Eligibility is built in by "
         "construction: a per-minute extent bound M (gap + body + wicks, in ticks) is drawn first; candles are expanded from a "
         "drawn PRNG seed in trending / ranging segments under that bound; the program enters with a market order or ONE "
         "resting order and declares, in on_open_position, 1-2 stop-loss and 1-2 take-profit rows spaced at least "
@@ -28,12 +28,15 @@ def make_rows(c):
     rows, prev = [], c['start']
     seg_left, bias = 0, 0.0
     tick = c['tick']
+    edge = TFM[c['tf']]
     for i in range(n):
         if seg_left == 0:
             seg_left = int(rng.integers(40, 260))
             bias = float(rng.choice([-0.75, -0.4, 0.0, 0.4, 0.75]))
         seg_left -= 1
-        gap = int(rng.integers(-g, g + 1)) if (g and rng.random() < gp and i > 0) else 0
+        # gaps exactly on a trading-candle boundary (the fast simulator's chunk edge) get their own probability
+        gp_i = c.get('edge_gap_p', gp) if i % edge == 0 else gp
+        gap = int(rng.integers(-g, g + 1)) if (g and rng.random() < gp_i and i > 0) else 0
         body = int(rng.integers(0, b + 1)) * (1 if rng.random() < 0.5 + bias / 2 else -1)
         up, dn = int(rng.integers(0, w + 1)), int(rng.integers(0, w + 1))
         o = prev + gap
@@ -42,7 +45,7 @@ def make_rows(c):
             cl = o + abs(body)
             dn = 0
         h, l = max(o, cl) + up, min(o, cl) - dn
-        rows.append([float(T0 + i * MIN), o * tick, cl * tick, h * tick, l * tick, float(rng.integers(1, 90))])
+        rows.append([float(T0 + (c.get('start_off', 0) + i) * MIN), o * tick, cl * tick, h * tick, l * tick, float(rng.integers(1, 90))])
         prev = cl
     return rows
 
@@ -82,7 +85,7 @@ def eligible(r, c):
     per = {}
     for o in r['orders']:
         if o['status'] == 'EXECUTED' and o['type'] != 'MARKET':
-            k = int((o['executed_at'] - T0 - MIN) // (TFM[c['tf']] * MIN))
+            k = int((o['executed_at'] - T0 - c.get('start_off', 0) * MIN - MIN) // (TFM[c['tf']] * MIN))  # trading candles are counted from the session's first minute
             per[k] = per.get(k, 0) + 1
     if any(v > 1 for v in per.values()):
         return False, 'two resting fills in one trading candle'
@@ -146,7 +149,7 @@ def run_shard(acc, shard, nshards, seed, tier):
                                          sl=st.sampled_from([[1.0], [0.5, 0.5], [1.0], [0.25, 0.75]]), tp=st.sampled_from([[1.0], [0.5, 0.5], [0.5, 0.25, 0.25][:2] + [0.25]][:3])))
         return dict(tf=tf, data_tf=data_tf, type=typ, n=n, seed=draw(st.integers(0, 2 ** 31)), b=draw(st.sampled_from([1, 1, 2, 3])), w=draw(st.sampled_from([0, 1])),
                     g=draw(st.sampled_from([0, 1, 2])), gap_p=draw(st.sampled_from([0.0, 0.05, 0.2])), start=draw(st.sampled_from([2000, 4000, 40000])),
-                    tick=draw(st.sampled_from([0.5, 0.25, 0.01])), fee=draw(st.sampled_from([0.0, 0.0004, 0.001])), balance=10_000.0,
+                    tick=draw(st.sampled_from([0.5, 0.25, 0.01])), start_off=draw(st.sampled_from([0, 0, 0, 3, 7, 30, 570, 1439])), edge_gap_p=draw(st.sampled_from([0.0, 0.2, 0.6, 1.0])), fee=draw(st.sampled_from([0.0, 0.0004, 0.001])), balance=10_000.0,
                     lev=draw(st.sampled_from([1, 2, 5])) if typ == 'futures' else 1, rows=draw(st.lists(row, min_size=2, max_size=12)))
 
     def chk(c):
@@ -154,7 +157,7 @@ def run_shard(acc, shard, nshards, seed, tier):
         if not info['eligible']:
             return dict(key=None, nontrivial=False, classes=['ineligible'], excluded=['ineligible: ' + info['why']], violations=[])
         nt = info['trades'] >= 2 and info['resting_fills'] >= 1
-        cl = ['eligible', 'tf:' + c['tf'], 'type:' + c['type'], ('data-route:' + ('nesting' if (TFM[c['data_tf']] % TFM[c['tf']] == 0) else 'non-nesting')) if c['data_tf'] else 'no-data-route', 'odd-length' if c['n'] % TFM[c['tf']] else 'aligned-length']
+        cl = ['eligible', 'tf:' + c['tf'], 'type:' + c['type'], ('data-route:' + ('nesting' if (TFM[c['data_tf']] % TFM[c['tf']] == 0) else 'non-nesting')) if c['data_tf'] else 'no-data-route', 'odd-length' if c['n'] % TFM[c['tf']] else 'aligned-length', 'start-off-the-timeframe-grid' if c['start_off'] % TFM[c['tf']] else 'start-on-the-timeframe-grid']
         if info['error']:
             cl.append('aborted:' + info['error'])
         return dict(key=c, nontrivial=nt, classes=cl, violations=vios,
